@@ -215,6 +215,7 @@ def rand_expression(rnd, P, E):
     e = None
     for _ in range(rnd.randint(1, 6)):
         r = rnd.random(); c = float(rnd.choice(SC))
+        if rnd.random() < .12: c = float(rnd.choice([Fr(1, 2 ** 30), Fr(-1, 2 ** 40), Fr(2 ** 20), Fr(3, 2 ** 34)]))     # magnitudes a tolerance-based clean-up would erase
         if r < .5:
             a, b = rnd.choice(P), rnd.choice(P); t = c * (a * b)
         elif r < .7:
@@ -291,8 +292,15 @@ def c07_fuzz(n, seed, procs):
         rnd = random.Random(seed * 15485863 + it)
         pep = PEP()
         funcs = []
+        expected = []       # the weights over leaf functions each function object should denote, computed independently
         for i in range(rnd.randint(2, 3)):
             funcs.append(pep.declare_function(ConvexFunction) if rnd.random() < .5 else pep.declare_function(SmoothConvexFunction, L=1.))
+            expected.append({i: Fr(1)})
+        def comb(wa, ia, wb, ib):
+            out = {}
+            for w_, i_ in ((wa, ia), (wb, ib)):
+                for k_, v_ in expected[i_].items(): out[k_] = out.get(k_, 0) + Fr(w_) * v_
+            return out
         pts = [pep.set_initial_point() for _ in range(2)]
         W = [1, 2, -1, .5, 4, -2, 0]
         log = []
@@ -300,7 +308,13 @@ def c07_fuzz(n, seed, procs):
             r = rnd.random()
             if r < .25:
                 a, b = rnd.choice(funcs), rnd.choice(funcs); wa, wb = rnd.choice(W), rnd.choice(W)
-                funcs.append(wa * a + wb * b); log.append("f%d=%s*f%d+%s*f%d" % (len(funcs) - 1, wa, funcs.index(a), wb, funcs.index(b)))
+                if rnd.random() < .3:      # written directly, operands possibly identical leaves: f + f, f - f, f + g
+                    sub = rnd.random() < .3; b = rnd.choice([a, b])
+                    expected.append(comb(1, funcs.index(a), -1 if sub else 1, funcs.index(b)))
+                    funcs.append(a - b if sub else a + b); log.append("f%d=f%d%sf%d" % (len(funcs) - 1, funcs.index(a), "-" if sub else "+", funcs.index(b)))
+                else:
+                    expected.append(comb(wa, funcs.index(a), wb, funcs.index(b)))
+                    funcs.append(wa * a + wb * b); log.append("f%d=%s*f%d+%s*f%d" % (len(funcs) - 1, wa, funcs.index(a), wb, funcs.index(b)))
             elif r < .35:
                 a, b = rnd.choice(pts), rnd.choice(pts); w = rnd.choice([1, -1, .5, 2, 0])
                 pts.append(a * rnd.choice([1, 0]) + w * b if rnd.random() < .7 else w * b); log.append("pt")
@@ -329,6 +343,8 @@ def c07_fuzz(n, seed, procs):
                 if pdict(g): errs.append("stationary point of f%d with non-zero gradient" % fi)
             if f.get_is_leaf(): continue
             dec = {t: Fr(w) for t, w in f.decomposition_dict.items() if w != 0}
+            got = {funcs.index(t): w for t, w in dec.items()}; want = {k_: v_ for k_, v_ in expected[fi].items() if v_ != 0}
+            if got != want: errs.append("f%d denotes the weights %s over the leaf functions, it was written as %s" % (fi, {k_: str(v_) for k_, v_ in got.items()}, {k_: str(v_) for k_, v_ in want.items()}))
             if not dec:
                 # the zero function: the weighted sum of no samples is (0, 0); stationary_point() / fixed_point() record a free
                 # value leaf (and g = x) instead: known finding KF-C07-zero-function-point
